@@ -60,7 +60,7 @@ Proof.
   rewrite in_app_iff. destruct (Z_lt_dec r ((m + 1) * v)) as [Hlt|Hge].
   - left. apply row_span_complete.
     replace (m * maxv * v / maxv) with (m * v) by (rewrite <- Z.mul_assoc, (Z.mul_comm maxv v), Z.mul_assoc, Z.div_mul by lia; reflexivity).
-    lia.
+    nia.
   - right. replace (m * maxv + maxv) with ((m + 1) * maxv) by lia. apply IH; [lia | nia].
 Qed.
 
@@ -78,7 +78,7 @@ Lemma samp_tables : forall ss, 0 <= ss < 7 ->
   nth (Z.to_nat ss) tj_mcu_width 0 = 8 * samp_h ss /\ nth (Z.to_nat ss) tj_mcu_height 0 = 8 * samp_v ss.
 Proof.
   intros ss H. assert (ss = 0 \/ ss = 1 \/ ss = 2 \/ ss = 3 \/ ss = 4 \/ ss = 5 \/ ss = 6) as C by lia.
-  destruct C as [->|[->|[->|[->|[->|[->| ->]]]]]]; cbn; lia.
+  destruct C as [->|[->|[->|[->|[->|[->| ->]]]]]]; vm_compute; split; reflexivity.
 Qed.
 
 Lemma PAD_cases a b : 0 <= a -> (b = 1 \/ b = 2 \/ b = 4) ->
@@ -96,14 +96,11 @@ Proof.
   pose proof (PAD_cases width (samp_h ss) ltac:(lia) Hsh) as [Pw Pwm].
   pose proof (PAD_cases height (samp_v ss) ltac:(lia) Hsv) as [Ph Phm].
   unfold plane_w, plane_h, comp_h, comp_v. destruct (comp =? 0) eqn:E.
-  - repeat split; try lia.
-    + rewrite Z.div_mul by lia. reflexivity.
-    + rewrite <- Z.divide_div_mul_exact; [| lia | apply Z.mod_divide; lia].
-      rewrite Z.mul_comm, Z.div_mul by lia. reflexivity.
+  - repeat split; lia.
   - rewrite !(Z.mul_comm _ 8), !Z.div_mul_cancel_l by lia. rewrite !Z.mul_1_r.
     repeat split; try reflexivity.
-    + destruct Hsh as [->|[->| ->]]; lia.
-    + destruct Hsv as [->|[->| ->]]; lia.
+    + destruct Hsh as [H|[H|H]]; rewrite H in *; lia.
+    + destruct Hsv as [H|[H|H]]; rewrite H in *; lia.
 Qed.
 
 Definition in_plane (comp pw ph stride : Z) (k : rw) (a : access) : Prop :=
